@@ -628,10 +628,21 @@ fn pp(owner: usize, mgr: usize, init: i128, cap: i128, ver: u8) -> Params {
     Params { owner, mgr, init, cap, ver, max_ttl: MAX_TTL }
 }
 
+/// Run one family / sequence; a Rust panic inside it (a constructor that fails in `e.register`, a
+/// getter that traps) must not take the whole run down: it is recorded as an operation whose
+/// observation no model answer matches (= a correspondence break) and the run goes on.
+fn guarded(t: &mut Trace, what: &str, f: impl FnOnce(&mut Trace)) {
+    if catch(|| f(&mut *t)).is_none() {
+        t.op("gate deploy a=- d=- auth=-");
+        t.obs(&format!("err harness-panic in {}", what.replace(' ', "_")));
+    }
+}
+
 // ---- directed scenarios --------------------------------------------------------------------
 
 fn directed(t: &mut Trace) {
     // fungible-pausable: every entry point before / while / after pause; wrong and right owner auth
+    guarded(t, "directed ptok", |t| {
     let p = pp(0, 0, 1000, 0, 0);
     t.seq(&Sim::label(Kind::PTok, p, 1, 100, "directed pausable token"));
     let mut s = Sim::new(Kind::PTok, p, 1, 100);
@@ -661,8 +672,10 @@ fn directed(t: &mut Trace) {
     s.exec(t, "transfer_from", &[2, 1, 3], 10, 0, &[2]);
     s.exec(t, "burn", &[1], 10, 0, &[1]);
     s.exec(t, "burn_from", &[2, 1], 10, 0, &[2]);
+    });
 
     // pausable counter
+    guarded(t, "directed pcnt", |t| {
     let p = pp(2, 0, 0, 0, 0);
     t.seq(&Sim::label(Kind::PCnt, p, 1, 100, "directed pausable counter"));
     let mut s = Sim::new(Kind::PCnt, p, 1, 100);
@@ -679,9 +692,11 @@ fn directed(t: &mut Trace) {
     s.gate(t, "unpause", &[2], &[], &[2]);
     s.gate(t, "increment", &[], &[], &[]);
     s.gate(t, "reset", &[], &[], &[]);
+    });
 
     // allow list, library type and example: entry point x vetted role x status
     for kind in [Kind::ALib, Kind::AEx, Kind::BLib, Kind::BEx] {
+        guarded(t, "directed list matrix", |t| {
         let p = pp(0, 1, 100_000, 0, 0);
         let allowl = matches!(kind, Kind::ALib | Kind::AEx);
         let lib = matches!(kind, Kind::ALib | Kind::BLib);
@@ -756,9 +771,11 @@ fn directed(t: &mut Trace) {
             }
         }
         let _ = (on, off);
+        });
     }
 
     // regression (DESIGN section 8, defect 5): a holder disallowed after receiving tokens burns
+    guarded(t, "directed defect 5", |t| {
     let p = pp(0, 1, 1000, 0, 0);
     t.seq(&Sim::label(Kind::AEx, p, 1, 100, "directed disallowed holder burns"));
     let mut s = Sim::new(Kind::AEx, p, 1, 100);
@@ -768,9 +785,11 @@ fn directed(t: &mut Trace) {
     s.gate(t, "disallow", &[2, 1], &[], &[1]);
     s.exec(t, "burn", &[2], 40, 0, &[2]);
     s.exec(t, "burn_from", &[3, 2], 30, 0, &[3]);
+    });
 
     // capped: cap - supply +/- 1, i128 overflow
     for cap in [1000i128, 0, i128::MAX, i128::MAX - 1] {
+        guarded(t, "directed cap", |t| {
         let p = pp(0, 0, 0, cap, 0);
         t.seq(&Sim::label(Kind::Cap, p, 1, 100, "directed cap boundaries"));
         let mut s = Sim::new(Kind::Cap, p, 1, 100);
@@ -787,9 +806,11 @@ fn directed(t: &mut Trace) {
         s.exec(t, "mint", &[3], (i128::MAX - cap).saturating_add(1), 0, &[]);
         s.exec(t, "mint", &[3], i128::MIN, 0, &[]);
         s.exec(t, "transfer", &[1, 4], 1, 0, &[1]);
+        });
     }
 
     // migration flag, (A) all-native histories
+    guarded(t, "directed mig native", |t| {
     let p = pp(0, 0, 0, 0, 0);
     t.seq(&Sim::label(Kind::Mig, p, 1, 100, "directed migration native"));
     let mut s = Sim::new(Kind::Mig, p, 1, 100);
@@ -810,8 +831,10 @@ fn directed(t: &mut Trace) {
     s.gate(t, "enable", &[], &[], &[]);
     s.gate(t, "complete", &[], &[], &[]);
     s.gate(t, "migrate", &[0], &[13, 14], &[0]);
+    });
     // (B) `upgrade` as expanded by the tree's derive macros, then the prebuilt v2 wasm
     for ver in [0u8, 1] {
+        guarded(t, "directed mig upgrade", |t| {
         let p = pp(3, 0, 0, 0, ver);
         t.seq(&Sim::label(Kind::Mig, p, 1, 100, "directed migration upgrade"));
         let mut s = Sim::new(Kind::Mig, p, 1, 100);
@@ -827,6 +850,7 @@ fn directed(t: &mut Trace) {
         s.gate(t, "upgrade", &[3], &[], &[3]);
         s.gate(t, "migrate", &[3], &[7, 8], &[3]);
         s.gate(t, "migrate", &[3], &[9, 10], &[3]);
+        });
     }
 }
 
@@ -847,6 +871,7 @@ fn idle(t: &mut Trace) {
     let far = 100 + 200 * DAY; // allowances that outlive all gaps (132 days in total)
 
     // fungible-pausable: paused stays paused
+    guarded(t, "idle ptok", |t| {
     let p = lp(0, 0, 1000, 0, 0);
     t.seq(&Sim::label(Kind::PTok, p, 1, 100, "idle pausable token"));
     let mut s = Sim::new(Kind::PTok, p, 1, 100);
@@ -871,8 +896,10 @@ fn idle(t: &mut Trace) {
     s.gate(t, "pause", &[0], &[], &[0]);
     s.advance(t, 31 * DAY);
     s.exec(t, "burn", &[1], 5, 0, &[1]);
+    });
 
     // pausable counter
+    guarded(t, "idle pcnt", |t| {
     let p = lp(2, 0, 0, 0, 0);
     t.seq(&Sim::label(Kind::PCnt, p, 1, 100, "idle pausable counter"));
     let mut s = Sim::new(Kind::PCnt, p, 1, 100);
@@ -886,9 +913,11 @@ fn idle(t: &mut Trace) {
     }
     s.gate(t, "unpause", &[2], &[], &[2]);
     s.gate(t, "increment", &[], &[], &[]);
+    });
 
     // allow / block lists, library types and examples
     for kind in [Kind::ALib, Kind::AEx, Kind::BLib, Kind::BEx] {
+        guarded(t, "idle list", |t| {
         let p = lp(0, 1, 100_000, 0, 0);
         let allowl = matches!(kind, Kind::ALib | Kind::AEx);
         let lib = matches!(kind, Kind::ALib | Kind::BLib);
@@ -944,9 +973,11 @@ fn idle(t: &mut Trace) {
         s.exec(t, "transfer", &[3, 0], 5, 0, &[3]);
         s.advance(t, 31 * DAY);
         s.exec(t, "transfer", &[3, 0], 5, 0, &[3]);
+        });
     }
 
     // capped: the cap survives, mints near it
+    guarded(t, "idle cap", |t| {
     let p = lp(0, 0, 0, 1000, 0);
     t.seq(&Sim::label(Kind::Cap, p, 1, 100, "idle cap"));
     let mut s = Sim::new(Kind::Cap, p, 1, 100);
@@ -959,9 +990,11 @@ fn idle(t: &mut Trace) {
     }
     s.exec(t, "mint", &[2], 1, 0, &[]);
     s.exec(t, "mint", &[2], 0, 0, &[]);
+    });
 
     // migration flag: armed stays armed, cleared stays cleared
     for (ver, upgrade) in [(0u8, false), (0, true), (1, true)] {
+        guarded(t, "idle mig", |t| {
         let p = lp(3, 0, 0, 0, ver);
         t.seq(&Sim::label(Kind::Mig, p, 1, 100, "idle migration"));
         let mut s = Sim::new(Kind::Mig, p, 1, 100);
@@ -982,6 +1015,7 @@ fn idle(t: &mut Trace) {
             s.advance(t, g);
             s.gate(t, "migrate", &[3], &[5, 6], &[3]); // already completed: refused
         }
+        });
     }
 }
 
@@ -1122,7 +1156,7 @@ fn main() {
                 }
             }
             let l = if kind.fungible() { len } else { len / 2 + 6 };
-            rand_seq(&mut rng, &mut t, kind, k, seed, l);
+            guarded(&mut t, "rand", |t| rand_seq(&mut rng, t, kind, k, seed, l));
             k += 1;
         }
     }
